@@ -129,12 +129,16 @@ class Prop(PropBase):
                 rep = G.utf8_bytes(v)[0]
             else:
                 rep = rng.choice([0x2D, 0x61, 0x20, 0x80, 0xE2])
-            n = rng.choice([1, 3, 4, 5, 8, 31, 32, 33, 64, 200])
+            n = rng.choice([1, 3, 4, 5, 8, 31, 32, 33, 64, 200, 255, 256, 257, 300, 513, 1030])
             if rng.random() < 0.6:
                 sps += [[G.g_lit(rep)] for _ in range(n)]
             else:
                 sps += [[G.g_lit(rng.choice([rng.randrange(0x20, 0x7F), rep, 0x41]))] for _ in range(n)]
             sps.append(G.random_spelling(rng))
+            if rng.random() < 0.3:
+                # a reset at the START of an element's markup while a non-default character set is in force: the set stays
+                sps.append([G.D_RESET, G.g_lit(rng.choice([0x62, 0x71, 0x23]))])
+                sps.append([G.g_lit(0x63)])
             kind = "E" if i % 4 else "s"
             cs.append(G.spelling_case(kind, sps, tag="runs-%s" % kind))
         # ---- 6. random Expressible strings through canonical markup
